@@ -111,12 +111,20 @@ func goroots() []string {
 // CheckKinds is C01 clause 2: import discovery is exhaustive with respect to the type printer.
 func CheckKinds(run *core.Run, prog *load.Program) {
 	f, fn, info := walkerByRole(prog)
-	if f == nil {
-		// role: the recursive function over a types.Type switch that reaches AddImport
-		run.Undecided("G-KINDS", "role", "internal/registry/method_scope.go", "the import discovery walker (populateImports) was not found")
-		return
+	noWalker := f == nil
+	pos := "internal/registry/method_scope.go"
+	if noWalker {
+		// no recursive function over a types.Type and an import map (an iterative walk, a visitor ...): the
+		// loops over type components are then looked for in everything AddVar reaches
+		fn = prog.LookupFunc(load.PkgRegistry, "MethodScope.AddVar")
+		if fn == nil {
+			run.Undecided("G-KINDS", "role", pos, "neither an import discovery walker nor (*MethodScope).AddVar was found")
+			return
+		}
+		pos = prog.Pos(fn.Pos())
+	} else {
+		pos = prog.Pos(f.Decl.Pos())
 	}
-	pos := prog.Pos(f.Decl.Pos())
 	// writer table vs GOROOTs
 	nroots := 0
 	for _, gr := range goroots() {
@@ -207,6 +215,20 @@ func CheckKinds(run *core.Run, prog *load.Program) {
 				}
 				return true
 			})
+			if noWalker {
+				// a loop over the components of a type: its body fetches them with a go/types accessor
+				calls = false
+				ast.Inspect(body, func(x ast.Node) bool {
+					if call, ok := x.(*ast.CallExpr); ok {
+						if cf, ok := typeutil.Callee(finfo, call).(*types.Func); ok && cf.Pkg() != nil && cf.Pkg().Path() == "go/types" && len(call.Args) == 1 {
+							if _, isAcc := accessorBound[cf.Name()]; isAcc {
+								calls = true
+							}
+						}
+					}
+					return true
+				})
+			}
 			if !calls {
 				return true
 			}
